@@ -7,6 +7,8 @@
     st.sender sc  <sender> <boxes> <syms> <eph> <src> <sink> <ops>
     st.sender det <ma> <signer> <src> <sink> <ops>
     st.sender <kind>.a … <brand> <sink> <ops>       the armored composition
+    st.sender armor <typ> <brand> <sink> <ops>      the BARE armor encoder stream
+                                                    (`NewArmor62EncoderStream`, `FArm.init62` / `writeN` / `close` / `calls`)
 
   <sink>  `-` or a string of 0/1: which underlying Write calls fail (1 = fails)
   <ops>   comma separated: `w:<hex>` Write of these bytes, `g:<off>:<len>` Write
@@ -111,8 +113,28 @@ def runDetachedA (typ : Int) (brand : Bytes) (setup : Except Err (Bytes × (Byte
       let (st, tr, ls) := runOps DSt.write (armoredCloseD codecPieces sigPkt) (fun s => s.codec.w.w.bytes.length) ops st0
       answer true tr ls st.codec.w.w
 
+/-- the bare armor encoder stream over the scripted writer, the caller carrying
+    on after errors: per call `(n, class)` from `FArm.calls`, the bytes at the
+    writer after every call from the same transitions one by one -/
+def runBareArmor (typ : Int) (brand : Bytes) (sink : Stream.Sink) (ops : List Op) : String :=
+  let (aok, a0) := FArm.init62 typ brand ({ sink := sink } : Wr)
+  if !aok then answer false [] [a0.w.bytes.length] a0.w
+  else
+    let err (ok : Bool) : Option Err := if ok then none else some .ioError
+    let (_, _, ls) := runOps (fun s p => let r := FArm.writeN s p; (r.1, err r.2.1, r.2.2))
+      (fun s => let r := FArm.close s; (err r.1, r.2)) (fun s => s.w.bytes.length) ops a0
+    let (rs, a) := FArm.calls a0 (ops.map (fun o => match o with | .w p => some p | .c => none))
+    let tr := (ops.zip rs).map (fun (o, r) => match o with
+      | .w _ => s!"{r.1}:{cls (err r.2)}"
+      | .c => s!"c:{cls (err r.2)}")
+    answer true tr ls a.w
+
 def handle (toks : List String) : Option String :=
   match toks with
+  | ["st.sender", "armor", typ, brand, sink, ops] =>
+    match typ.toInt?, ofHex brand, parseOps ops with
+    | some typ, some brand, some ops => some (runBareArmor typ brand (parseSink sink) ops)
+    | _, _, _ => some bad
   | ["st.sender", "enc.a", ma, sender, recips, eph, src, brand, sink, ops] =>
     match ma.toInt?, mkSender sender, mkRecips recips, mkEph eph, mkSource src, ofHex brand, parseOps ops with
     | some ma, some sender, some rs, some eph, some src, some brand, some ops =>
